@@ -76,7 +76,7 @@ static pid_t process_fork(const int *except, size_t num_except)
   ENS("C10/process_fork.excepted_descriptors_keep_their_objects", OBJ_KEPT(except[0]) && OBJ_KEPT(except[1]) && OBJ_KEPT(except[2]) && OBJ_KEPT(except[3]) && OBJ_KEPT(except[4]) && OBJ_KEPT(except[5]) && (g.fds.rd & EXCEPT6_MASK(except)) == (OLD(g.fds.rd) & EXCEPT6_MASK(except)) && (g.fds.wr & EXCEPT6_MASK(except)) == (OLD(g.fds.wr) & EXCEPT6_MASK(except)))
   ENS("C06/process_fork.parent_sends_no_signal", g.nsig == OLD(g.nsig) && g.kill_calls == OLD(g.kill_calls))
   ENS("C12/process_fork.child_clean_signal_state", IMPLIES(g.in_child, RV == 0 && g.sigmask == 0 && DISP_ALL_DEFAULT))
-  ENS("C11/process_fork.child_keeps_only_excepted_descriptors", IMPLIES(g.in_child, (g.fds.open & SOFT_LIMIT_MASK & ~EXCEPT6_MASK(except)) == 0 && (g.fds.open & ~OLD(g.fds.open)) == 0))
+  ENS("C11+C02/process_fork.child_keeps_only_excepted_descriptors", IMPLIES(g.in_child, (g.fds.open & SOFT_LIMIT_MASK & ~EXCEPT6_MASK(except)) == 0 && (g.fds.open & ~OLD(g.fds.open)) == 0))
   ENS("C10/process_fork.child_excepted_descriptors_untouched", IMPLIES(g.in_child, (g.fds.open & EXCEPT6_MASK(except)) == (OLD(g.fds.open) & EXCEPT6_MASK(except)) && (g.fds.cloexec & EXCEPT6_MASK(except)) == (OLD(g.fds.cloexec) & EXCEPT6_MASK(except))))
   ENS("C04/process_fork.child_reports_nothing_on_success", IMPLIES(g.in_child, g.child_reports == 0 && !g.exited))
   ;
